@@ -102,53 +102,78 @@ Proof. exact pointless_global_iff. Qed.
 Print Assumptions C18_pointless_meaning.
 
 (* (4) SOUNDNESS of acting on a warning, by simulation on the interpreter model.
-   Unused label: deleting the statement changes no run — result (value / error), log, final globals, heap, fetched URLs
-   ([wrel]: everything but statementCount and the bodies stored for script functions), in BOTH directions, for every run that
-   finishes (any fuel; the other run gets twice the fuel), under an unlimited statement budget (c_max = 0: deleting a statement
-   changes statementCount), for every library that treats the function table and the counter as opaque ([lib_sim]). *)
+   [run_le cfg lib url_rel lint_lines ok c c']: every run of c that finishes (some fuel f; for ok = true also: without the model
+   declining, OOracle) is matched by the run of c' with fuel 2f — same outcome (value / error), and final worlds related by [wrel]:
+   equal globals, heap, log, fetched URLs; only statementCount and the bodies stored for bound script functions may differ.
+   Unlimited statement budget (c_max = 0: deleting a statement changes statementCount); for every library that treats the function
+   table and the counter as opaque ([lib_sim], a premise on [lib]). *)
+
+(* unused label: deleting the statement lint points at changes no run, in BOTH directions *)
 Theorem C18_unused_label_delete : forall cfg lib url_rel lint_lines,
-  c_max cfg = 0%Z -> lib_sim lib ->
+  c_max cfg = 0%Z -> lib_sim false lib ->
   forall s l i, In (WUnusedLabel l i) (lint s) ->
   nth_error s i = Some (SLabel l) /\
-  (forall f w o w1, execute_script cfg lib url_rel lint_lines f s w = (o, w1) -> o <> OFuel ->
-     exists w1', execute_script cfg lib url_rel lint_lines (2 * f) (remove_at i s) w = (o, w1') /\ wrel w1 w1') /\
-  (forall f w o w1, execute_script cfg lib url_rel lint_lines f (remove_at i s) w = (o, w1) -> o <> OFuel ->
-     exists w1', execute_script cfg lib url_rel lint_lines (2 * f) s w = (o, w1') /\ wrel w1 w1').
-Proof. exact unused_global_label_delete. Qed.
+  run_le cfg lib url_rel lint_lines false s (remove_at i s) /\ run_le cfg lib url_rel lint_lines false (remove_at i s) s.
+Proof. exact final_unused_label_delete. Qed.
 Print Assumptions C18_unused_label_delete.
 
 Theorem C18_unused_fn_label_delete : forall cfg lib url_rel lint_lines,
-  c_max cfg = 0%Z -> lib_sim lib ->
+  c_max cfg = 0%Z -> lib_sim false lib ->
   forall s l fn i, In (WFnUnusedLabel l fn i) (lint s) ->
   exists k args a b body, nth_error s k = Some (SFunction fn args a b body) /\ nth_error body i = Some (SLabel l) /\
-  let s' := set_body s k (remove_at i body) in
-  (forall f w o w1, execute_script cfg lib url_rel lint_lines f s w = (o, w1) -> o <> OFuel ->
-     exists w1', execute_script cfg lib url_rel lint_lines (2 * f) s' w = (o, w1') /\ wrel w1 w1') /\
-  (forall f w o w1, execute_script cfg lib url_rel lint_lines f s' w = (o, w1) -> o <> OFuel ->
-     exists w1', execute_script cfg lib url_rel lint_lines (2 * f) s w = (o, w1') /\ wrel w1 w1').
-Proof. exact unused_fn_label_delete. Qed.
+    run_le cfg lib url_rel lint_lines false s (set_body s k (remove_at i body)) /\
+    run_le cfg lib url_rel lint_lines false (set_body s k (remove_at i body)) s.
+Proof. exact final_unused_fn_label_delete. Qed.
 Print Assumptions C18_unused_fn_label_delete.
 
-(* the general statement behind both: statement lists that differ only by labels no jump targets (also inside function
-   bodies) behave alike *)
+(* the definition, spelled out *)
+Theorem C18_run_le_means : forall cfg lib url_rel lint_lines ok c c',
+  run_le cfg lib url_rel lint_lines ok c c' <->
+  forall f w o w1, execute_script cfg lib url_rel lint_lines f c w = (o, w1) -> o <> OFuel -> (ok = true -> o <> OOracle) ->
+  exists w1', execute_script cfg lib url_rel lint_lines (2 * f) c' w = (o, w1') /\ wrel ok w1 w1'.
+Proof. exact final_run_le_means. Qed.
+Print Assumptions C18_run_le_means.
+
+(* the general statement behind them: statement lists that differ only by labels no jump targets (also inside function bodies;
+   for ok = true also by pointless statements present on the left only) behave alike *)
 Theorem C18_related_scripts_run_alike : forall cfg lib url_rel lint_lines,
-  c_max cfg = 0%Z -> lib_sim lib ->
-  forall c c', code_rel c c' ->
-  forall f w o w1, execute_script cfg lib url_rel lint_lines f c w = (o, w1) -> o <> OFuel ->
-  exists w1', execute_script cfg lib url_rel lint_lines (2 * f) c' w = (o, w1') /\ wrel w1 w1'.
-Proof. exact related_scripts_run_alike. Qed.
+  c_max cfg = 0%Z -> forall ok, lib_sim ok lib -> forall c c', code_rel ok c c' -> run_le cfg lib url_rel lint_lines ok c c'.
+Proof. exact final_related_scripts. Qed.
 Print Assumptions C18_related_scripts_run_alike.
 
+(* pointless statement.  Evaluating the expression changes nothing and cannot raise or end the script, for EVERY library (the
+   expression makes no call; the operators never raise: F4 repaired, C05) ... *)
+Theorem C18_pointless_expression_has_no_effect : forall cfg lib url_rel lint_lines f e loc bi um w, pointless e = true ->
+  exists o, eval cfg lib url_rel lint_lines f e loc bi um w = (o, w) /\ benign o.
+Proof. exact final_pointless_eval. Qed.
+Print Assumptions C18_pointless_expression_has_no_effect.
+
+(* ... hence deleting the statement does not change a run that finishes in the model.  PARTIAL (full clause: both directions, like
+   the label theorem): only original => edited, and a run in which the model declines (OOracle: operand types whose text/arithmetic
+   Model/Interp.v does not reproduce) is not covered; the converse needs fuel for the deleted expression itself. *)
+Theorem C18_pointless_delete_partial : forall cfg lib url_rel lint_lines,
+  c_max cfg = 0%Z -> lib_sim true lib ->
+  forall s i, In (WPointless i) (lint s) ->
+  exists e, nth_error s i = Some (SExpr None e) /\ pointless e = true /\ run_le cfg lib url_rel lint_lines true s (remove_at i s).
+Proof. exact final_pointless_delete_partial. Qed.
+Print Assumptions C18_pointless_delete_partial.
+
+Theorem C18_pointless_fn_delete_partial : forall cfg lib url_rel lint_lines,
+  c_max cfg = 0%Z -> lib_sim true lib ->
+  forall s fn i, In (WFnPointless fn i) (lint s) ->
+  exists k args a b body e, nth_error s k = Some (SFunction fn args a b body) /\ nth_error body i = Some (SExpr None e) /\
+    pointless e = true /\ run_le cfg lib url_rel lint_lines true s (set_body s k (remove_at i body)).
+Proof. exact final_pointless_fn_delete_partial. Qed.
+Print Assumptions C18_pointless_fn_delete_partial.
+
 (* the premise on the library is satisfiable, also by a library that calls back into script functions *)
-Theorem C18_lib_premise_satisfiable : lib_sim toy_lib.
+Theorem C18_lib_premise_satisfiable : forall ok, lib_sim ok toy_lib.
 Proof. exact toy_lib_sim. Qed.
 Print Assumptions C18_lib_premise_satisfiable.
 
-(* NOT PROVED in the model (direct oracle on the implementation only, see harness/c18.py):
-   C18_unused_var_rename, C18_unused_arg_rename : forall s f x x', In (WUnusedVar x f i) (lint s) -> fresh x' s -> run (rename ...) ~ run s
-   C18_pointless_delete : In (WPointless i) (lint s) -> run (remove_at i s) ~ run s
-     (needs: evaluating a pointless expression has no effect and cannot raise; in the model `binop` can also answer OOracle
-      "the model declines", so the statement would need that case excluded). *)
+(* NOT PROVED in the model (direct oracle on the implementation only, harness/c18.py):
+   C18_unused_var_rename, C18_unused_arg_rename :
+     forall s f x x', In (WUnusedVar x f i) (lint s) -> fresh x' s -> run (rename_local f x x' s) ~ run s. *)
 
 (* known finding F26: the nested scope is not visited *)
 Example C18_nested_scope_refuted :
